@@ -29,12 +29,12 @@ int main() {
       case 1: r.shrink(p); break;
       case 2: (void) r.exists(p); break;
       case 3: (void) r.depth(); break;
-      case 4: case 5: { auto s = r.subscribe<int>(mk(1), [](int) { got++; }); s->unsubscribe(); if (op == 5) r.shrink(p); } break;
+      case 4: case 5: { auto s = r.subscribe<int>(mk(__vf_cube(1)), [](int) { got++; }); s->unsubscribe(); if (op == 5) r.shrink(p); } break;
     }
   });
   std::thread B([&] {
     while (!go) {}
-    for (int n = 0; n < 200; n++) { auto s = r.subscribe<int>(mk(5), [](int) { got++; }); r.notify<int>(mk(8), 1); (void) r.exists(mk(7)); (void) r.depth(); s->unsubscribe(); r.shrink(mk(8)); }
+    for (int n = 0; n < 200; n++) { auto s = r.subscribe<int>(mk(5), [](int) { got++; }); r.notify<int>(mk(8), 1); r.notify<int>(mk(6), 1); (void) r.exists(mk(7)); (void) r.depth(); s->unsubscribe(); r.shrink(mk(8)); }
   });
   go = 1; A.join(); B.join();
   fprintf(stderr, "done, %d deliveries\n", got.load());
